@@ -25,6 +25,9 @@ theorem gen_tunnel_recv : Gen.C18.tunnelRecvCompares = ["len(data) > 0"] ∧
 theorem gen_enum_members : cpxTargetSTM32 ∈ Gen.C18.targetValues ∧ cpxTargetHOST ∈ Gen.C18.targetValues ∧
     cpxFunctionCRTP ∈ Gen.C18.functionValues := by decide
 
+theorem gen_router_loop : Gen.C18.routerHandlers = ["Exception"] ∧ Gen.C18.routerHandlerLeavesLoop = false ∧
+    Gen.C18.routerTryInsideLoop = true := by decide
+
 /-! ## The property -/
 
 /-- A packet whose enum-typed fields hold members of the enums (the only packets Python can build). -/
@@ -60,6 +63,18 @@ theorem router_fifo_per_function (ops : List ROp) (f : Nat) :
   have := router_inv ops f []
   simpa [routerRun, Queues.has] using this
 
+/-- A packet the transport rejects (unsupported version, unknown target/function, short header) neither
+kills the router thread nor stops the routing of the packets that follow it: whatever `readPacket` raises,
+the queues end up exactly as if only the good packets had been read, and the thread is alive. -/
+theorem router_survives_rejected_packets (reads : List (Except Err Packet)) (q : Queues) :
+    routerReads Gen.C18.routerHandlers reads q = ((okOps reads).foldl routerStep q, true) :=
+  routerReads_all_caught _ (by decide) reads q
+
+/-- with a handler that does not catch the version error the thread dies there (what the obligation
+`gen_router_loop` rules out) -/
+example : routerReads ["OSError", "ValueError", "struct.error"]
+    [.ok ⟨3, 3, 3, false, [1]⟩, .error .version, .ok ⟨3, 3, 3, false, [2]⟩] [(3, [])] = ([(3, [1])], false) := by decide
+
 /-- Uplink tunnelling: the CPX payload is the CRTP header byte followed by the unchanged data, addressed to
 the STM32 on the CRTP function; the far end recovers header and data, and the packet survives the wire. -/
 theorem crtp_uplink_id (h : UInt8) (d : List UInt8) :
@@ -87,6 +102,7 @@ example : readPackets 2 [[4, 0], [0x19], [3, 0xaa, 0xbb, 2], [0], [0x19, 3]] =
     .ok ([⟨3, 1, 3, false, [0xaa, 0xbb]⟩, ⟨3, 1, 3, false, []⟩], []) := by decide
 example : Gen.C18.verExpr (0x43 : UInt8).toNat ≠ Gen.C18.cpxVersion := by decide
 example : expectedQueue 3 [.pkt 3 1, .reg 3, .pkt 3 5, .pkt 2 9, .pkt 3 6] = [5, 6] := by decide
+example : routerStream [3] [[3, 0, 0x19, 3, 7], [3, 0, 0x19, 0x43, 8, 3, 0], [0x19, 3, 9]] = ([(3, [7, 9])], true) := by decide
 example : Framed [⟨3, 1, 3, true, [1, 2, 3]⟩] [[5, 0, 0x59, 3, 1, 2, 3]] := .cons (by decide) .nil
 
 end CfVerif.C18
